@@ -1,17 +1,20 @@
 package c18
 
 import (
+	"context"
 	"encoding/json"
 	"errors"
 	"fmt"
 	"io"
 	"net/http"
 	"net/url"
+	"os"
 	"reflect"
 	"runtime/debug"
 	"strconv"
 	"strings"
 	"testing"
+	"time"
 
 	network "github.com/TeaEntityLab/fpGo/v2/network"
 	"pgregory.net/rapid"
@@ -132,6 +135,16 @@ type quotaError int
 
 func (q quotaError) Error() string { return fmt.Sprintf("c18: quota exceeded (%d left)", int(q)) }
 
+// waitError follows the net.Error convention (Timeout() reports true), as a rate limiter's or a token
+// fetch's error would: it is the interceptor's error all the same
+type waitError struct{ id int }
+
+func (w *waitError) Error() string {
+	return fmt.Sprintf("c18: interceptor %d gave up waiting for its rate limiter", w.id)
+}
+func (w *waitError) Timeout() bool   { return true }
+func (w *waitError) Temporary() bool { return true }
+
 type forbidden struct{}
 
 func (forbidden) Error() string { return "c18: forbidden" }
@@ -151,6 +164,8 @@ type machine struct {
 	second *network.SimpleHTTPDef
 	guard  *network.Interceptor
 	cur    *reqState
+	// lastCtx: the context of the last request a transport answered, as the transport saw it
+	lastCtx context.Context
 
 	model      []int
 	clients    []*http.Client
@@ -220,7 +235,7 @@ func newMachine(initial []int) *machine {
 					st.returned = &refusal{Interceptor: id, Position: st.n - 1, cause: errTagged}
 				case 2:
 					// errors that are plain values, among them values that are the zero value of their type
-					st.returned = []error{quotaError(0), forbidden{}, quotaError(7), codeError{}}[(id+st.n/4)%4]
+					st.returned = []error{quotaError(0), forbidden{}, quotaError(7), codeError{}, &waitError{id}, os.ErrDeadlineExceeded}[(id+st.n/4)%6]
 				default:
 					st.returned = fmt.Errorf("interceptor %d at position %d: %w", id, st.n-1, errTagged)
 				}
@@ -403,6 +418,12 @@ func (m *machine) request(o op, suffix string) (res result) {
 				cancel()
 			case m.reqNo%3 == 2:
 				ctx, cancel := m.sh.GetContextTimeout()
+				if m.lastCtx != nil && m.reqNo%4 >= 2 {
+					// a follow-up request made in the context of an earlier, completed one (its values - trace ids and
+					// the like - travel along, its cancellation does not): a request like any other
+					cancel()
+					ctx, cancel = context.WithTimeout(context.WithoutCancel(m.lastCtx), 5*time.Second)
+				}
 				if o.FailAt >= 0 && o.FailAt < len(m.model) && m.reqNo%2 == 0 {
 					// the caller's context is already done when an interceptor refuses the request: the caller
 					// still learns the interceptor's error
@@ -435,6 +456,9 @@ func (m *machine) request(o op, suffix string) (res result) {
 				err = r.Err
 				if r.Response != nil && r.Response.Body != nil {
 					r.Response.Body.Close()
+				}
+				if r.Response != nil && r.Response.Request != nil {
+					m.lastCtx = r.Response.Request.Context()
 				}
 			}
 			return
